@@ -113,7 +113,7 @@ func genApl(r *Rng, tier string) *Enc {
 	if axis == 0 {
 		tag = r.Intn(8)
 		if r.Chance(25) {
-			tag = Pick(r, []int{10, 11, 12, 14}) // column-wise: mixed kinds, a longer slice, a shorter slice, the non-nil cells
+			tag = Pick(r, []int{10, 11, 12, 14, 14}) // column-wise: mixed kinds, a longer slice, a shorter slice, the non-nil cells
 		}
 	}
 	if df.Ncols() > 0 && r.Chance(12) {
